@@ -153,17 +153,41 @@ def random_mesh(rng, nj=None, ni=None, *, maxn=4, split=0.3, merge=0.35, jitter=
         r = int(rng.integers(len(f)))
         out.append(f[r:] + f[:r])
     faces = [out[k] for k in rng.permutation(len(out))] if chance(rng, 0.5) else out
-    # compact nodes (no orphans), in a shuffled node order
+    # compact nodes, in a shuffled node order; sometimes one or two ORPHAN nodes that belong to no face (UGRID does not
+    # forbid them: a station, the end of a 1-D network in a mixed file) - inside or outside the hull of the faces
     used = sorted({n for f in faces for n in f})
-    perm = rng.permutation(len(used))
-    remap = {old: int(perm[k]) for k, old in enumerate(used)}
-    x = numpy.empty(len(used))
-    y = numpy.empty(len(used))
     fx, fy = gx.ravel(), gy.ravel()
+    norphan = int(rng.integers(1, 3)) if ORPHAN_POLICY['on'] and chance(rng, 0.15) else 0
+    total = len(used) + norphan
+    perm = rng.permutation(total)
+    remap = {old: int(perm[k]) for k, old in enumerate(used)}
+    x = numpy.empty(total)
+    y = numpy.empty(total)
     for old, new in remap.items():
         x[new], y[new] = fx[old], fy[old]
+    ux, uy = fx[used], fy[used]
+    w, h = max(float(ux.max() - ux.min()), 1e-6), max(float(uy.max() - uy.min()), 1e-6)
+    for k in range(norphan):
+        new = int(perm[len(used) + k])
+        if chance(rng, 0.6):
+            x[new] = float(ux.max() + w * rng.uniform(0.2, 1.0)) if chance(rng, 0.5) else float(ux.min() - w * rng.uniform(0.2, 1.0))
+            y[new] = float(uy.max() + h * rng.uniform(0.2, 1.0)) if chance(rng, 0.5) else float(uy.min() - h * rng.uniform(0.2, 1.0))
+        else:
+            x[new] = float(rng.uniform(ux.min(), ux.max()))
+            y[new] = float(rng.uniform(uy.min(), uy.max()))
     faces = [[remap[n] for n in f] for f in faces]
-    return Mesh(faces, x, y), winding
+    mesh = Mesh(faces, x, y)
+    mesh.orphans = sorted(int(perm[len(used) + k]) for k in range(norphan))
+    return mesh, winding
+
+
+import os as _os
+ORPHAN_POLICY = {'on': _os.environ.get('VMON_ORPHAN_NODES', '1') == '1'}
+
+
+def set_orphan_nodes(on):
+    ORPHAN_POLICY['on'] = bool(on)
+    _os.environ['VMON_ORPHAN_NODES'] = '1' if on else '0'
 
 
 def hanging_mesh(rng, maxn=4):
